@@ -206,7 +206,7 @@ def run(ctx):
         if ctx.deadline.left() < 20 and done_bounds:
             exhaustive = False
             break
-        if rate and len(cases) > 1500 and len(cases) * len(cases[0]["members"]) / rate * 2.0 > ctx.deadline.left() - 20:      # would not finish
+        if not ctx.quick and rate and len(cases) > 1500 and len(cases) * len(cases[0]["members"]) / rate * 2.0 > ctx.deadline.left() - 20:      # would not finish
             exhaustive = False
             break
         t_b = __import__("time").time()
